@@ -2,6 +2,7 @@ import RV.C03.LongLemmas
 import RV.C03.NumLemmas
 import RV.C03.ListLemmas
 import RV.C03.LayoutLemmas
+import RV.C03.PreLemmas
 /-
   C03 — property theorems: "serialise then parse gives back the same RDF graph".
 
@@ -249,6 +250,20 @@ def Statement_coll_is_sugar : Prop :=
 theorem layout_roundtrip : Statement_layout_roundtrip := fun _ _ _ _ hp => layout_roundtrip' hp
 
 theorem coll_is_sugar : Statement_coll_is_sugar := coll_is_sugar'
+
+/-- The decidable test the correspondence harness runs on the blank nodes rdflib's Turtle writers actually
+    left unlabelled (`pre` probe: blank nodes, each referenced at most once, none inside a cycle of unlabelled
+    nodes) establishes `Pre` for those of them that are referenced — so the observed inlining choice of the
+    implementation is an instance of `layout_roundtrip`. -/
+def Statement_preCheck_pre : Prop :=
+  ∀ (g : Graph) (I : List Nat), g.Nodup → (∀ t ∈ g, origOnly t.1 ∧ origOnly t.2.2) → (∀ t ∈ g, ∃ k, t.2.1 = .iri k) →
+    preCheck g (I.map bnO) = true → (∀ n ∈ I, parentsOf g (bnO n) ≠ []) →
+    ∃ F rank, Pre g I F rank ∧ Iso g (denote (layout g I F))
+
+theorem preCheck_pre : Statement_preCheck_pre := by
+  intro g I hnd ho hpi hchk href
+  have hp := preCheck_pre' hnd ho hpi hchk href
+  exact ⟨_, _, hp, layout_roundtrip' hp⟩
 
 /-- non-vacuity: `<10> <11> [ <12> "5" ; <13> [ <12> "6" ] ]` — two nested inlined nodes satisfy `Pre` -/
 def nested : Graph :=
